@@ -565,6 +565,7 @@ class patched_choice:
 def path_case(desc, first, highs):
     """Run the real path heuristic with the deterministic draw; returns (Gallina case literal, outcome strings)."""
     rp = build("path", desc)
+    hyp = path_hyp(rp)
     obs, outs = [], []
     with patched_choice(first):
         for high in highs:
@@ -582,7 +583,8 @@ def path_case(desc, first, highs):
             outs.append("ok")
     rs = lit.lst([lit.lst([f"inl {lit.nat(name_code(desc, nm))}" for nm in r]) for r in desc["routes"]])
     term = lit.tup(gops_lit(desc), lit.z(desc["vehicle_cap"]), lit.z(desc["initial_loading"]), rs, lit.boolean(first),
-                   lit.lst([lit.z(h) for h in highs]), lit.lst(obs))
+                   lit.lst([lit.z(h) for h in highs]), lit.boolean(hyp), lit.lst(obs))
+    outs.append("inside the hypotheses" if hyp else "outside the hypotheses")
     return term, outs
 
 
@@ -599,8 +601,9 @@ def correspondence_path(ctx, dist, descs):
             continue
         terms.append(term)
         meta.append((desc, first, highs, outs))
-        for k, o in enumerate(outs):
+        for k, o in enumerate(outs[:-1]):
             dist[f"corr/path/call{k + 1}/{o}"] += 1
+        dist[f"corr/path/{outs[-1]}"] += 1
     mism, err = ctx.coq_mismatches("path", HEADER, "pcase9", "check_pcase9", terms, shard=40)
     ctx.count(evaluations=sum(len(m[3]) for m in meta), traces=len(terms))
     if ctx.has_concrete():
@@ -611,19 +614,18 @@ def correspondence_path(ctx, dist, descs):
         if fail is not None:
             report(ctx, signature("path", fail[0]), fail[1], dict(json_desc("path", desc, highs), trace=trace, **fail[2]))
             continue
-        model = ctx.coq_eval(HEADER, "match " + terms[idx] + " with (ops, cap, init, rs, fst_, highs, _) => map observe9 (mf_path_iter "
+        model = ctx.coq_eval(HEADER, "match " + terms[idx] + " with (ops, cap, init, rs, fst_, highs, _, _) => map observe9 (mf_path_iter "
                              "(if fst_ then choose_first else choose_last) harness_dum (pstate_of ops cap init rs) highs) end")
         ctx.violation("correspondence/path/invocation" + "+".join(str(t) for t in tags),
                       f"model mf_path and PathBasedRoutingProblem.make_feasible disagree (tags {tags}: k = observation after invocation k, "
-                      "9 = number of invocations); the property oracle found no failing input on this instance",
+                      "9 = number of invocations, 8 = the harness and the model disagree on whether the hypotheses of C09_total_path hold); the property oracle found no failing input on this instance",
                       dict(json_desc("path", desc, highs), correspondence="Heur.check_pcase9", draw="first key" if first else "last key",
                            implementation_outcomes=outs, model=model[-3000:]), False)
 
 
 # ----------------------------------------------------------------------------------------------------------
 def run(ctx):
-    if os.path.exists(os.path.join(COQ, "props", "C09.v")):
-        ctx.prove()
+    ctx.prove()
     dist = collections.Counter()
     reported = set()
     sweep_instances(ctx, dist, reported)
@@ -641,7 +643,7 @@ def run(ctx):
     ctx.assumptions.append("numpy/scipy float arithmetic is exact on the integer data used (magnitudes below 2^53); on the raw G1 / "
                            "random MIRP data (non-dyadic costs) only the integer-valued clauses are compared, the optimisation-mode "
                            "value is compared on the same instances with costs rounded to integers")
-    if ctx.tier == "thorough" and os.path.exists(os.path.join(COQ, "props", "C09.vo")):
+    if ctx.tier == "thorough":
         ctx.coqchk("VQP.C09")
 
 
